@@ -45,6 +45,7 @@ struct c05_session : public vsim_session {
     std::ostream &o = *out;
     o << tag << " " << h.it << " " << vs_hex(h.W);
     for (size_t i = 0; i < h.centers.size(); i++) o << " " << vs_hex(h.centers[i]);   // all components
+    for (size_t i = 0; i < h.sigmas.size(); i++) o << " " << vs_hex(h.sigmas[i]);     // the widths stored in the hill
     o << "\n";
   }
 
